@@ -1,9 +1,113 @@
 package checks
 
-import "fmt"
+import (
+	"encoding/json"
+	"fmt"
+	"os"
+	"os/exec"
+	"path/filepath"
+	"strconv"
+	"strings"
+	"sync"
+)
 
-// Selftest is filled in later (determinism self-test).
+// Selftest runs the harness self-tests:
+//
+//	selftest determinism [-n N] [prop ...]
+//
+// For every property and N run indices the plan is generated once and executed
+// in three separate processes under GOMAXPROCS 1, 4 and 16; the complete
+// outcome (violations, statistics, probes, fault counts, reached states and
+// the event-log digest) must be identical.
 func Selftest(args []string, self string) int {
-	fmt.Println("selftest: not implemented yet")
-	return 2
+	if len(args) == 0 || args[0] != "determinism" {
+		fmt.Println("usage: selftest determinism [-n N] [prop ...]")
+		return 2
+	}
+	args = args[1:]
+	n := 40
+	var props []string
+	for i := 0; i < len(args); i++ {
+		if args[i] == "-n" && i+1 < len(args) {
+			n, _ = strconv.Atoi(args[i+1])
+			i++
+			continue
+		}
+		props = append(props, args[i])
+	}
+	if len(props) == 0 {
+		props = IDs()
+	}
+	dir, err := os.MkdirTemp("", "verif-selftest-")
+	if err != nil {
+		fmt.Println(err)
+		return 2
+	}
+	defer os.RemoveAll(dir)
+	seed := BaseSeed()
+	bad := 0
+	total := 0
+	var mu sync.Mutex
+	for _, id := range props {
+		c := Get(id)
+		if c == nil {
+			fmt.Printf("unknown property %s\n", id)
+			return 2
+		}
+		sem := make(chan struct{}, 8)
+		var wg sync.WaitGroup
+		mism := 0
+		for run := 0; run < n; run++ {
+			run := run
+			wg.Add(1)
+			sem <- struct{}{}
+			go func() {
+				defer wg.Done()
+				defer func() { <-sem }()
+				p := c.Gen(seed, run, "quick")
+				p.Property, p.Seed, p.Run = c.ID, seed, run
+				f := filepath.Join(dir, fmt.Sprintf("%s-%d.json", id, run))
+				b, _ := json.Marshal(p)
+				_ = os.WriteFile(f, b, 0o644)
+				var outs []string
+				for _, procs := range []string{"1", "4", "16"} {
+					cmd := exec.Command(self, "exec", f)
+					cmd.Env = append(os.Environ(), "GOMAXPROCS="+procs, "GORACE=halt_on_error=1 exitcode=66")
+					o, err := cmd.Output()
+					s := string(o)
+					if err != nil {
+						s = "process died: " + err.Error()
+					}
+					outs = append(outs, s)
+				}
+				mu.Lock()
+				total++
+				if outs[0] != outs[1] || outs[1] != outs[2] {
+					mism++
+					if mism <= 3 {
+						fmt.Printf("NONDETERMINISM property=%s run=%d\n  GOMAXPROCS=1 : %s\n  GOMAXPROCS=4 : %s\n  GOMAXPROCS=16: %s\n", id, run, clip(outs[0]), clip(outs[1]), clip(outs[2]))
+					}
+				}
+				mu.Unlock()
+				_ = os.Remove(f)
+			}()
+		}
+		wg.Wait()
+		fmt.Printf("determinism %s: %d plans x 3 processes, %d mismatches\n", id, n, mism)
+		bad += mism
+	}
+	if bad > 0 {
+		fmt.Printf("determinism self-test FAILED: %d of %d plans differ between executions\n", bad, total)
+		return 1
+	}
+	fmt.Printf("determinism self-test passed: %d plans, each executed in 3 processes (GOMAXPROCS 1/4/16), identical outcomes\n", total)
+	return 0
+}
+
+func clip(s string) string {
+	s = strings.TrimSpace(s)
+	if len(s) > 300 {
+		return s[:300] + "..."
+	}
+	return s
 }
